@@ -591,6 +591,27 @@ class DictAttr:
     __hash__ = object.__hash__
 
 
+class VivNS:
+    """Auto-vivifying namespace: truthy through __len__ only (no class-level __bool__); any unknown attribute,
+    dunders included, is created on access by __getattr__ (a visible side effect)."""
+
+    def __init__(self):
+        object.__setattr__(self, "children", {})
+
+    def __len__(self):
+        Adv.LOG.append("VivNS.__len__")
+        return 1 + len(self.children)
+
+    def __getattr__(self, name):
+        Adv.LOG.append("VivNS.__getattr__:" + name)
+        return self.children.setdefault(name, VivNS())
+
+    def __eq__(self, other):
+        return self is other
+
+    __hash__ = object.__hash__
+
+
 class AttrObj:
     """Keeps attributes under another name; reading has effects the subject does not trigger by storing."""
 
@@ -625,7 +646,7 @@ def gen_input(rng) -> dict:
     if ln and r.random() < 0.12:   # objects with partial / raising comparison protocols as elements
         items[r.randrange(ln)] = {"adv": r.choice(["adv", "advfull"]), "mode": r.choice(["plain", "raise", "notimpl"]), "val": r.choice([0, 1, 2])}
     ok = r.choice(["none", "int", "adv", "adv", "advfull", "advfull", "str", "lstr", "nan", "list", "iter", "big", "tuple", "bytes", "set",
-                   "opstr", "opstr", "opstrsw", "opbytes", "peek", "peek", "attrobj", "complex", "big", "dictattr", "dictattr"])
+                   "opstr", "opstr", "opstrsw", "opbytes", "peek", "peek", "attrobj", "complex", "big", "dictattr", "dictattr", "vivns", "vivns"])
     o = {"k": ok}
     if ok in ("adv", "advfull"):
         o["mode"] = r.choice(["plain", "plain", "raise", "notimpl", "nonbool", "never"])
@@ -717,6 +738,8 @@ def materialise(spec: dict):
         o = AttrObj()
     elif k == "dictattr":
         o = DictAttr()
+    elif k == "vivns":
+        o = VivNS()
     elif k == "complex":
         o = complex(1, 2)
     else:
